@@ -103,3 +103,13 @@ Example C03_chain_example : exists stI stW,
   pkg_run nil (m_ann (cons exC_p1 (cons exC_p2 (cons exC_p3 nil)))) (m_ts (cons exC_p1 (cons exC_p2 (cons exC_p3 nil)))) stW /\
   conflicts stI <> nil /\ conflicts stW <> nil.
 Proof. exact exC_chain. Qed.
+
+(* ... and when the last run is conflict-free, both give the same verdict to every site of a set V that is visible (exported,
+   or unknown to the package) at every link of the chain *)
+Theorem C03_chain_verdicts_equal : forall exported V facts pkgs stI,
+  modularV exported V facts pkgs stI ->
+  forall stW, pkg_run facts (m_ann pkgs) (m_ts pkgs) stW ->
+  conflicts stI = nil ->
+  forall s, V s -> dv stW s = dv stI s.
+Proof. exact chain_verdicts_equal. Qed.
+Print Assumptions C03_chain_verdicts_equal.
